@@ -160,8 +160,11 @@ class Check:
         # --- specification-level check
         if spec_relation and oracle is not None and not impl.get("nomodel"):
             o = run.norm(oracle)
-            if o[0] == "OK" and i[0] == "OK" and "u" in case["mode"]:
-                pass      # the self-loop-free variant has its own semantics: compared with the model only
+            malformed_ctx = any(isinstance(sp, str) and sp[:1] in ("R", "X") for _, sp in case.get("ctx", ()))
+            if o[0] == "OK" and i[0] == "OK" and ("u" in case["mode"] or malformed_ctx):
+                # the self-loop-free variant has its own semantics, and a context set that is not inside
+                # the unit set is outside the documented precondition: compared with the model only
+                pass
             elif o[0] == "OK" and i[0] == "OK":
                 want = o[1].split(",")
                 got = i[1].split(",")
